@@ -278,6 +278,13 @@ def dict_protocol(prog, res, rule: str, *, only_modify: bool = False) -> int:
                 keys = sorted(k.value for k in d.keys)
                 # keys that some arm of to_dict writes with a value carry object state: they must not be missing on another arm
                 state_keys = {k.value for _p2, d2 in arms for k, v in zip(d2.keys, d2.values) if not (isinstance(v, ast.Constant) and v.value is None)} - {k.value for k in d.keys}
+                # … and so do the keys named after what the object is built from (constructor parameters): a reader that
+                # falls back to a default for one of them because NO arm writes it loses that part of the object
+                init = prog.find_method(ci, "__init__")
+                if init is not None and not ci.is_dataclass:
+                    state_keys |= {q for q in init.param_names()[1:] if not q.startswith("_")} - {k.value for k in d.keys}
+                elif ci.is_dataclass:
+                    state_keys |= {q for q in ci.class_ann if not q.startswith("_")} - {k.value for k in d.keys}
                 probs = dictsym.consume(prog, ci, fd, param, d, dictsym.facts_of(p), f"{ci.name}.to_dict() -> from_dict", state_keys)
                 if probs:
                     for pr in probs:
